@@ -22,9 +22,10 @@
 (* arrays may be reused by Alloc.                                          *)
 (*                                                                         *)
 (* The machine is written as a pure step function Apply(S, act) over the   *)
-(* bundled state so that Trace_ConsCache can reuse it.  The history (with  *)
-(* the expected observation after every action) is part of the state; the  *)
-(* invariant Emit prints one JSON record per history of length EmitDepth.  *)
+(* bundled state so that Trace_ConsCache can reuse it.  The history is     *)
+(* part of the state (and, in printing runs, the expected observation      *)
+(* after each of its actions: obsq); the invariant Emit prints one JSON    *)
+(* record {acts, obs} per history of length EmitDepth.                     *)
 (***************************************************************************)
 EXTENDS Integers, Sequences, FiniteSets, TLC, Json
 
